@@ -229,6 +229,34 @@ func init() {
 				}
 			}
 			c.check(okr, "id-validation", "Request.isSane: ErrInvalidID", p.Pos(fnPos(f)), "invalid ids are reported with the dedicated sentinel", "isSane no longer returns ErrInvalidID: the id-correlation arm cannot distinguish invalid ids")
+			// the id is validated before anything else: every other failed check is answered with an error response that echoes
+			// the request's id, so an ill-typed id ([37], {"a":1.5}, true) must have been rejected (→ id null) by then (defect F24)
+			var idTest *ssa.If
+			allInstrs(f, func(in ssa.Instruction) {
+				iff, ok := in.(*ssa.If)
+				if !ok || idTest != nil {
+					return
+				}
+				if b, isB := iff.Cond.(*ssa.BinOp); isB && (isNilConst(b.X) || isNilConst(b.Y)) && strings.HasSuffix(strings.TrimSuffix(term(b.X), " == nil")+term(b.Y), ".IDnil") {
+					idTest = iff
+				} else if isB && strings.Contains(term(b), ".ID") && strings.Contains(term(b), "nil") {
+					idTest = iff
+				}
+			})
+			if idTest == nil {
+				c.und("id-validation", "Request.isSane: id checked first", p.Pos(fnPos(f)), "the test of the request id was not recognised")
+			} else {
+				badRet := ""
+				for _, ret := range returnsOf(f) {
+					if isNilConst(ret.Results[0]) || strings.HasSuffix(term(ret.Results[0]), "ErrInvalidID") {
+						continue
+					}
+					if !idTest.Block().Dominates(ret.Block) {
+						badRet = p.Pos(posOf(ret.Ret, f))
+					}
+				}
+				c.check(badRet == "", "id-validation", "Request.isSane: id checked first", p.Pos(posOf(idTest, f)), "every other failed sanity check is reported only after the id was validated", "the sanity error returned at "+badRet+" is reported before the id was validated: its error response echoes the request's id, which may be an array, object or boolean — not a valid JSON-RPC response id")
+			}
 		} else {
 			c.und("id-validation", "Request.isSane", "", "anchor not found")
 		}
@@ -264,7 +292,7 @@ func init() {
 					call = &ss
 				}
 			}
-			nNil := 0
+			nNil, nResp := 0, 0
 			for _, ret := range returnsOf(f) {
 				if isNilConst(ret.Results[0]) {
 					// either the sanity-error arm (error non-nil) or the notification arm
@@ -273,10 +301,23 @@ func init() {
 						d := p.mustHoldAt(ret.Ret)
 						ok, miss := everyDisjunctHas(d, []string{".ID == nil"})
 						okAfter := call != nil && dominatesInstr(call.Instr, ret.Ret)
-						c.check(ok && okAfter, "notification", "handleRequest: no response only for a request without id", p.Pos(posOf(ret.Ret, f)), "nil response under res.ID == nil, after the handler ran", "a nil response is returned although the request carries an id, or before the handler ran: "+miss)
+						if !okAfter {
+							// before the handler call only on the arms on which the handler cannot run at all: unknown method, or
+							// arguments that could not be built
+							nf, _ := everyDisjunctHas(d, []string{"^!", ".methods["})
+							bp, _ := everyDisjunctHas(d, []string{"buildArguments(", "!= nil"})
+							okAfter = len(d) > 0 && (nf || bp)
+						}
+						c.check(ok && okAfter, "notification", fmt.Sprintf("handleRequest: no response only for a request without id (#%d)", nNil), p.Pos(posOf(ret.Ret, f)), "nil response under res.ID == nil, after the handler ran (or where it cannot run)", "a nil response is returned although the request carries an id, or instead of running the handler: "+miss)
 					}
 					continue
 				}
+				// a response object is produced only for a request that carries an id: a notification is never answered, not even
+				// with method-not-found / invalid-params (JSON-RPC 2.0 §4.1; defect F23)
+				nResp++
+				dr := p.mustHoldAt(ret.Ret)
+				okID, missID := everyDisjunctHas(dr, []string{"^!", ".ID == nil"})
+				c.check(okID && len(dr) > 0, "notification", fmt.Sprintf("handleRequest: response only for a request with an id (#%d)", nResp), p.Pos(posOf(ret.Ret, f)), "the response is returned under ID != nil", "a response object is returned for a request without an id (a notification must never be answered, not even with an error): "+missID)
 				if ret.Results[0] != ssa.Value(res) {
 					allRes = false
 				}
